@@ -18,7 +18,9 @@ META = {
              "enabled set is never empty before the call returns), bounded number of scheduling points, final bytes == "
              "those of an unscheduled run, write log = header first, then every block exactly once at contiguous "
              "increasing offsets by the writer thread, then footer/patches by the calling thread, and no thread has an "
-             "enabled pending operation once the call has returned; the thorough tier also enumerates ALL schedules "
+             "enabled pending operation once the call has returned; NumPy cubes may hold a dead (all-zero) plane set, pairs of "
+             "configurations share the plane-set buffer shape at different rates, and for those the sequential file made "
+             "in the exploring process is compared with the one a fresh interpreter makes from the same call; the thorough tier also enumerates ALL schedules "
              "(depth-first over the choice tree) of the smallest configuration; non-trivial = producer ran >= 2 items "
              "ahead, or a queue became full, or more than one block; distinct = hash of the (thread, operation) sequence"),
     "assumptions": [
@@ -45,6 +47,10 @@ def conversion(case, d):
             # about their coded values, only that the pipeline still terminates with the sequential file
             data = data.copy()
             data[0, 0, 0], data[-1, -1, -1], data[1, 1, 1] = np.inf, -np.inf, np.nan
+        if case.get("dead") and data.shape[0] > bs[0]:
+            # a dead plane set (all samples zero), as in a padded survey
+            data = data.copy()
+            data[bs[0]:2 * bs[0]] = 0
         data = gen.as_layout(data, case.get("mem"))
         return (lambda: conv.numpy_convert(data, out, rate, bs)), out
     key = (case["route"], tuple(case["shape"]))
@@ -122,7 +128,7 @@ def reference(case, d):
     """The file a strictly sequential execution produces: the same conversion under the scheduler with the
     'downstream first' policy (every item is compressed and written before the next one is produced), checked
     against an unscheduled run with real threads."""
-    key = repr((case["route"], case["shape"], case["setting"], case.get("mode"), bool(case.get("nonfinite"))))
+    key = repr((case["route"], case["shape"], case["setting"], case.get("mode"), bool(case.get("nonfinite")), bool(case.get("dead"))))
     if key not in _ref_cache:
         case = dict(case, mem=None)
         S, log, data, err, leftover, queues = scheduled(dict(case, cap=1), d, [], policy="downstream")
@@ -136,8 +142,31 @@ def reference(case, d):
         if conv.read_bytes(out) != data:
             raise Violation("unscheduled-run-differs-from-sequential",
                             f"{case['route']} {case['shape']} {case['setting']}: a run with real threads does not produce the sequential file")
+        if case["route"] == "numpy" and case.get("dead"):
+            fresh = fresh_process_file(case, d)
+            if fresh != data:
+                raise Violation("sequential-file-depends-on-process-history",
+                                f"{case['route']} {case['shape']} {case['setting']}: the sequential file made in this process "
+                                f"({len(data)} bytes), which has run other conversions before, differs from the one a fresh "
+                                f"process makes from the same call ({len(fresh)} bytes)")
         _ref_cache[key] = data
     return _ref_cache[key]
+
+
+def fresh_process_file(case, d):
+    """State that is not in the arguments: the same conversion made by a fresh interpreter (nothing converted before)."""
+    import json, subprocess, sys, tempfile, shutil
+    fd = tempfile.mkdtemp(prefix="fresh_", dir=d)
+    try:
+        prog = ("import sys, json; sys.path[:0] = json.loads(sys.argv[1]); from vp.props import c16; "
+                "thunk, out = c16.conversion(json.loads(sys.argv[2]), sys.argv[3]); thunk()")
+        r = subprocess.run([sys.executable, "-c", prog, json.dumps([p for p in sys.path if p]), json.dumps(case), fd],
+                           capture_output=True, text=True, timeout=600)
+        if r.returncode != 0:
+            raise RuntimeError("harness: fresh-process conversion failed: " + r.stderr[-400:])
+        return conv.read_bytes(os.path.join(fd, "o.sgz"))
+    finally:
+        shutil.rmtree(fd, ignore_errors=True)
 
 
 def check_schedule(case, ctx, d, choices):
@@ -186,7 +215,9 @@ def check_schedule(case, ctx, d, choices):
 CONFIGS = {
     "numpy": [([4, 5, 9], [4, (4, 4, 512)]), ([7, 5, 9], [4, (4, 4, 512)]), ([11, 5, 9], [4, (4, 4, 512)]),
               ([5, 9, 70], [8, (8, 8, 64)]), ([17, 9, 70], [8, (8, 8, 64)]), ([9, 5, 600], [4, (4, 8, 256)]),
-              ([17, 5, 9], [8, (8, 8, 64)]), ([33, 3, 12], [16, (16, 16, 8)])],
+              ([17, 5, 9], [8, (8, 8, 64)]), ([33, 3, 12], [16, (16, 16, 8)]),
+              # the same plane-set buffer shape as a configuration above, at another rate
+              ([7, 5, 9], [2, (4, 8, 512)]), ([11, 5, 9], [2, (4, 8, 512)]), ([17, 9, 70], [4, (8, 8, 128)])],
     "segy": [([4, 5, 9], [4, (4, 4, 512)]), ([9, 5, 9], [4, (4, 4, 512)]), ([5, 9, 70], [8, (8, 8, 64)]),
              ([12, 3, 5], [4, (4, 4, 512)]),
              # more plane sets (19) than the largest queue holds (16)
@@ -206,7 +237,8 @@ def cases(draw):
     return {"route": route, "shape": list(shape), "setting": [setting[0], list(setting[1])],
             "cap": draw(st.sampled_from([1, 2, 16])), "mode": draw(st.sampled_from(["heuristic", "thorough", "strip"])),
             "choices": draw(st.lists(st.integers(0, 2), min_size=0, max_size=120)),
-            **({"mem": draw(st.sampled_from(gen.MEM_LAYOUTS)), "nonfinite": draw(st.integers(0, 5)) == 0} if route == "numpy" else {})}
+            **({"mem": draw(st.sampled_from(gen.MEM_LAYOUTS)), "nonfinite": draw(st.integers(0, 5)) == 0,
+                "dead": draw(st.integers(0, 3)) == 0} if route == "numpy" else {})}
 
 
 def run_case(case, ctx):
